@@ -26,8 +26,9 @@ pub mod verif_driver {
         pub cfg: DriverCfg,
     }
 
+    /// A trailing '!' on the metric name ("cosine!") = hnsw.disable_normalization_check = true.
     fn metric_of(s: &str) -> kyrodb_engine::config::DistanceMetric {
-        match s {
+        match s.trim_end_matches('!') {
             "cosine" => kyrodb_engine::config::DistanceMetric::Cosine,
             "inner_product" => kyrodb_engine::config::DistanceMetric::InnerProduct,
             _ => kyrodb_engine::config::DistanceMetric::Euclidean,
@@ -44,6 +45,7 @@ pub mod verif_driver {
             data_dir: cfg.data_dir.clone(),
             snapshot_interval: cfg.snapshot_interval,
             max_wal_size_bytes: 1 << 20,
+            hnsw_disable_normalization_check: cfg.metric.ends_with('!'),
             ..TieredEngineConfig::default()
         }
     }
@@ -55,6 +57,7 @@ pub mod verif_driver {
         app_config.rate_limit.enabled = false;
         app_config.hnsw.dimension = cfg.dim;
         app_config.hnsw.distance = metric_of(&cfg.metric);
+        app_config.hnsw.disable_normalization_check = cfg.metric.ends_with('!');
         let counts: HashMap<String, usize> = cfg.tenants.iter().map(|t| (t.0.clone(), 0usize)).collect();
         let state = Arc::new(ServerState {
             engine: Arc::new(engine),
